@@ -1191,6 +1191,8 @@ pub struct Meta {
 }
 
 pub struct MP {
+    /// the regex crate's reading of the pattern as written, when it is in the common syntax (spans of the groups)
+    rx: Option<regex::Regex>,
     /// for the (?=)-forced form: the same pattern as written (handed to the automata engine when it is plain)
     other: Option<Regex>,
     re: Regex,
@@ -1268,7 +1270,10 @@ impl PatProp for Meta {
         }
         // (the class of finding F1 behaves differently in the two engines by itself; C03 reports that)
         let other = if self.force_vm && !n.has_f1() { engine::build(&n.to_pattern_with(&naming(n))).ok_regex() } else { None };
-        Prep::Ready(MP { other, re, names: opts.names, ngroups, vm })
+        // only the syntax that means the same in both crates (`a?+` is a nested quantifier for the regex crate)
+        let fancy = n.any(|y| matches!(y, Look(..) | Atomic(_) | Backref(_) | KeepOut | ContG | CondGroup(..) | CondExpr(..) | GroupExists(_) | Repeat(_, _, _, crate::ast::Q::Poss)));
+        let rx = if n.has_f1() || fancy { None } else { regex::Regex::new(&n.to_pattern_with(&naming(n))).ok() };
+        Prep::Ready(MP { rx, other, re, names: opts.names, ngroups, vm })
     }
 
     fn eval(&self, _ctx: &RunCtx, p: &MP, _n: &Node, t: &str, pos: usize) -> Verdict {
@@ -1310,6 +1315,19 @@ impl PatProp for Meta {
             }
             if c.name("nosuchname").is_some() {
                 return Err(Fail::new("name-unknown", "None", "Some"));
+            }
+            // on the common syntax every group has the span the regex crate gives it (a group it forgets - one that can
+            // never match - counts as unset)
+            if let Some(rx) = &p.rx {
+                if let Some(rc) = rx.captures_at(t, pos) {
+                    let mut theirs: Vec<refm::Span> = (0..rc.len()).map(|i| rc.get(i).map(|m| (m.start(), m.end()))).collect();
+                    while theirs.len() < by_get.len() {
+                        theirs.push(None);
+                    }
+                    if theirs != by_get {
+                        return Err(Fail::new("group-spans-vs-regex-crate", format!("{:?}", theirs), format!("{:?}", by_get)));
+                    }
+                }
             }
             // both engine forms of one pattern report the same groups
             if let Some(o) = &p.other {
@@ -1389,7 +1407,7 @@ impl PatProp for Meta {
 
 pub fn run_c16(ctx: &RunCtx) -> Outcome {
     let mut o = Outcome::default();
-    o.rule = "patterns from the unrestricted space (all with >= 1 group, a quarter of those without any), a hash-chosen subset of groups named (x, y1, _z, π; (?<n>..) or (?P<n>..)), back-references respelled \\k<..> / (?P=..) as required; each pattern in its own form and with (?=) appended (forces the VM); oracle from the AST: captures_len == 1 + #groups, capture_names == [None, names...], and for every match at every offset Captures::len == captures_len, iter() == get(i) for all i, get(0) is Some, get(len+k) is None, name(n) == get(index of n), caps[i] / caps[name] give the group's text, unknown name => None, and the pattern as written and its (?=)-forced form report the same spans for every group; Captures::iter() advanced by 0..3 next() calls and then asked for nth(0..2), the rest, step_by(2), count and size_hint agrees with get(i). Non-trivial = >= 2 groups, at least one named, at least one unmatched in the match. Distinct = distinct (pattern spelling, text, offset).".into();
+    o.rule = "patterns from the unrestricted space (all with >= 1 group, a quarter of those without any), a hash-chosen subset of groups named (x, y1, _z, π; (?<n>..) or (?P<n>..)), back-references respelled \\k<..> / (?P=..) as required; each pattern in its own form and with (?=) appended (forces the VM); oracle from the AST: captures_len == 1 + #groups, capture_names == [None, names...], and for every match at every offset Captures::len == captures_len, iter() == get(i) for all i, get(0) is Some, get(len+k) is None, name(n) == get(index of n), caps[i] / caps[name] give the group's text, unknown name => None, the pattern as written and its (?=)-forced form report the same spans for every group, and on the common syntax these are the spans the regex crate reports; Captures::iter() advanced by 0..3 next() calls and then asked for nth(0..2), the rest, step_by(2), count and size_hint agrees with get(i). Non-trivial = >= 2 groups, at least one named, at least one unmatched in the match. Distinct = distinct (pattern spelling, text, offset).".into();
     o.assumptions = vec!["group count and names are computed from the harness AST / printer, not from the crate".into()];
     o.required_classes = vec!["engine:VM".into(), "engine:Wrap".into(), "groups:some-named".into(), "match:VM".into(), "match:Wrap".into()];
     let (enumerated, prods) = wild_spaces(ctx);
